@@ -273,7 +273,7 @@ def main():
             if pa["closed"] + (1 if pa["axioms"] else 0) < 1 or pa["closed"] < len(prints) - (1 if pa["axioms"] else 0):
                 proof_problems.append(f"Print Assumptions: {pa['closed']} closed blocks for {len(prints)} prints")
     obligations = len(thms) + len(spec.get("tie_lemmas", []))
-    discharged = obligations if not proof_problems else 0
+    coqchk_summary = None
     if tier == "thorough" and not proof_problems and spec.get("coqchk", True):
         vos = [os.path.join(THEORIES, props_module + ".vo")]
         try:
@@ -281,10 +281,20 @@ def main():
             if ck.returncode != 0:
                 proof_problems.append("coqchk failed: " + (ck.stderr or ck.stdout)[-300:])
             else:
-                axs = re.findall(r"^\s*\*\s*Axioms:\s*(.*)$", ck.stdout, re.M)
-                log("coqchk:", " ".join(ck.stdout.split())[-300:])
+                ckout = ck.stdout + "\n" + ck.stderr
+                summary = dict(re.findall(r"^\s*\*\s*([^:\n]+):\s*(.*)$", ckout, re.M))
+                log("coqchk:", "; ".join(f"{k.strip()}: {v.strip()}" for k, v in summary.items())[-400:])
+                coqchk_summary = {k.strip(): v.strip() for k, v in summary.items()}
+                for k, v in coqchk_summary.items():
+                    if k.startswith("Theory"):
+                        continue
+                    if v != "<none>":
+                        proof_problems.append(f"coqchk: {k}: {v[:200]}")
+                if not any(k.startswith("Axioms") for k in coqchk_summary):
+                    proof_problems.append("coqchk: no context summary in its output")
         except subprocess.TimeoutExpired:
             log("coqchk timed out (not counted)")
+    discharged = obligations if not proof_problems else 0
 
     # ---- 3. correspondence + oracle on the implementation
     total_cases = 0
@@ -443,6 +453,7 @@ def main():
             "known_findings_replayed": sorted(known_hits.keys()),
             "counters": counters,
             "proof_problems": proof_problems,
+            "coqchk": coqchk_summary,
             "exhaustive": bool(spec.get("exhaustive_note")),
             "exhaustive_note": spec.get("exhaustive_note", ""),
         },
